@@ -18,6 +18,7 @@ mod c11;
 mod c08;
 mod c09;
 mod c10;
+mod c07;
 
 fn main() {
     let args: Vec<String> = std::env::args().collect();
@@ -42,6 +43,7 @@ fn main() {
         "c08" => c08::main(rest),
         "c09" => c09::main(rest),
         "c10" => c10::main(rest),
+        "c07" => c07::main(rest),
         other => {
             eprintln!("unknown property {other}");
             std::process::exit(2);
